@@ -34,7 +34,7 @@ CFLAGS = ["-O1", "-g", "-fno-omit-frame-pointer", "-DNDEBUG", "-I" + REPO, "-I" 
           "-DMIR_VERIF", "-w"]
 
 
-def build_harness(name="c17_harness", CFLAGS=CFLAGS):
+def build_harness(name="c17_harness", CFLAGS=CFLAGS, LDFLAGS=()):
     hsrc = os.path.join(VERIF, "harness", "c17_harness.c")
     units = [("h", hsrc), ("gen", os.path.join(REPO, "mir-gen.c")), ("c2m", os.path.join(REPO, "c2mir", "c2mir.c"))]
     key = vf.file_hash(vf.repo_sources() + [hsrc], " ".join(CFLAGS))
@@ -59,7 +59,7 @@ def build_harness(name="c17_harness", CFLAGS=CFLAGS):
     log = "".join(o for _, o in res)
     if any(rc != 0 for rc, _ in res):
         return None, log
-    rc, out = vf.sh(["gcc", "-no-pie", "-o", exe + ".tmp", *objs, "-lm", "-ldl", "-lpthread"])
+    rc, out = vf.sh(["gcc", "-no-pie", *LDFLAGS, "-o", exe + ".tmp", *objs, "-lm", "-ldl", "-lpthread"])
     for o in objs:
         try:
             os.remove(o)
@@ -72,12 +72,17 @@ def build_harness(name="c17_harness", CFLAGS=CFLAGS):
     return exe, log
 
 
-with ThreadPoolExecutor(max_workers=2) as _ex:
+with ThreadPoolExecutor(max_workers=3) as _ex:
     _f1 = _ex.submit(build_harness)
+    # AddressSanitizer flavour (no libc interposition; freed blocks go straight back to ASan)
+    _f3 = _ex.submit(build_harness, "c17_harnessasan", CFLAGS + ["-DH_ASAN", "-fsanitize=address"], ["-fsanitize=address"])
     # assert-enabled flavour (no -DNDEBUG): used for the tiered histories only
     _f2 = _ex.submit(build_harness, "c17_harnessdbg", [f for f in CFLAGS if f != "-DNDEBUG"])
     EXE, build_log = _f1.result()
     EXE_DBG, _dbg_log = _f2.result()
+    EXE_ASAN, _asan_log = _f3.result()
+if EXE is not None and EXE_ASAN is None:
+    ck.broken_ties.append({"kind": "harness-compile", "name": "c17_harness (ASan flavour)", "log": _asan_log[-1500:]})
 if EXE is not None and EXE_DBG is None:
     ck.broken_ties.append({"kind": "harness-compile", "name": "c17_harness (assert flavour)", "log": _dbg_log[-1500:]})
 if EXE is None:
@@ -146,7 +151,8 @@ def run_harness(steps, tag, timeout=60, exe=None):
     tr = os.path.join(WORK, tag + ".tr")
     try:
         p = subprocess.run([exe or EXE, tr, *steps], stdout=subprocess.DEVNULL, stderr=subprocess.PIPE, text=True,
-                           timeout=timeout, cwd=WORK, errors="replace")
+                           timeout=timeout, cwd=WORK, errors="replace",
+                           env=dict(os.environ, ASAN_OPTIONS="detect_leaks=0:exitcode=11:allocator_may_return_null=1"))
         rc, err = p.returncode, p.stderr
     except subprocess.TimeoutExpired:
         rc, err = -99, "timeout"
@@ -274,7 +280,14 @@ def judge(res, steps):
                 viol.append(("C17:write-after-free", "a freed user-allocator block was written", l.strip()))
             elif l.startswith("D "):
                 w = l.split()
-                if w[1] != "0":
+                if w[1] != "0" and int(w[2]) >= 10:
+                    what_ = ["module", "item", "proto argument", "function variable", "global (hard register) variable",
+                             "register", "hard register", "string operand"][min(int(w[2]) - 10, 7)]
+                    viol.append(("C17:name-in-freed-block",
+                                 f"a {what_} name of a module that was moved with MIR_change_module_ctx still points into a block the "
+                                 "finished source context has returned to the user allocator (use after free when the name is read)",
+                                 l.strip()))
+                elif w[1] != "0":
                     viol.append(("C17:freed-block-still-referenced",
                                  f"an lref data item still points to label insn {w[1]} (label #{w[2]} of the item) which the library has "
                                  "already released through the user allocator; interpreter/generator read it afterwards (use after free)", l.strip()))
@@ -301,13 +314,24 @@ def run_history(h):
         tmpf.append(fp)
         steps = [x.replace("$WORK/" + name, fp) for x in steps]
     dbg = bool(h.get("assert_build")) and EXE_DBG is not None
-    res = run_harness(steps, tag, timeout=60 if QUICK else 180, exe=EXE_DBG if dbg else None)
+    asan = bool(h.get("asan_build")) and EXE_ASAN is not None and not dbg
+    res = run_harness(steps, tag, timeout=60 if QUICK else 180, exe=EXE_DBG if dbg else EXE_ASAN if asan else None)
     r = {"h": h, "rc": res["rc"], "stderr": res["stderr"], "viol": [], "stats": {}, "status": "ok"}
     if res["rc"] in REJECT:
         r["status"] = "rejected:" + REJECT[res["rc"]]
     elif res["rc"] == 9:
         r["status"] = "fault"
         r["viol"].append(("C17:code-write-without-access", "store to a code page that was not write-enabled (SIGSEGV under the checking code allocator)", res["stderr"][-300:]))
+    elif res["rc"] == 11 and asan:
+        m_ = re.search(r"SUMMARY: AddressSanitizer: (\S+) (\S+) in (\w+)", res["stderr"])
+        kind_ = m_.group(1) if m_ else "error"
+        r["status"] = "asan:" + kind_
+        r["crashed"] = True
+        r["viol"].append(("C17:use-after-free" if kind_ == "heap-use-after-free" else "C17:asan-" + kind_,
+                          f"AddressSanitizer: {kind_}" + (f" in {m_.group(3)} ({os.path.basename(m_.group(2))})" if m_ else "")
+                          + " — the library touched a block it had already returned to the user allocator"
+                          if kind_ == "heap-use-after-free" else f"AddressSanitizer: {kind_}" + (f" in {m_.group(3)}" if m_ else ""),
+                          "\n".join(l for l in res["stderr"].split("\n") if l.startswith(("==", "    #0", "    #1", "    #2", "SUMMARY")))[:600]))
     elif res["rc"] == 10:
         r["status"] = "fault-poison"
         r["viol"].append(("C17:use-after-free", "the library dereferenced a pointer it read from a block it had already freed "
@@ -715,7 +739,7 @@ def tail_steps(rng, gen, c2m):
 
 
 def gen_history(rng, mirs, cs, kind=None):
-    kind = kind or rng.choice(["mir", "mir", "c", "c", "c", "api", "api", "cmisc", "cerr", "lrefmod", "tiered"])
+    kind = kind or rng.choice(["mir", "mir", "c", "c", "c", "api", "api", "cmisc", "cerr", "lrefmod", "tiered", "jcallmod", "movectx"])
     iface = rng.choice(IFACES)
     level = rng.below(4)
     link = f"link:{iface}@{level}"
@@ -780,6 +804,52 @@ def gen_history(rng, mirs, cs, kind=None):
             s.append(f"genall:{rng.below(2)}")
         return {"kind": kind, "input": "generated lref module", "iface": iface, "level": level,
                 "files": {"lref.mir": gen_lref_module(rng)}, "steps": s + tail_steps(rng, iface != "interp", False)}
+    if kind == "jcallmod":
+        lv = rng.below(4)
+        iface = rng.choice(["gen", "gen", "lazy", "lazybb", "interp"])
+        s += ["scan:$WORK/jcall.mir"]
+        if rng.chance(1, 3):
+            s.append("output")
+        s += ["load", f"link:{iface}@{lv}"]
+        if iface != "gen":
+            s.append(f"genall:{lv}")           # functions are only generated (a JCALL target never returns here)
+        return {"kind": kind, "input": "generated jcall module", "iface": iface, "level": lv,
+                "files": {"jcall.mir": gen_jcall_module(rng)}, "steps": s + tail_steps(rng, True, False)}
+    if kind == "movectx":
+        # modules built in context A are moved to a fresh context B (MIR_change_module_ctx), A is finished
+        # FIRST, then B reads every name: namecheck, output, write, load, link, run
+        src = rng.choice(["names", "names", "api", "mir", "c"])
+        files, run, printable = None, "run", True
+        if src == "names":
+            s.append("scan:$WORK/names.mir")
+            files = {"names.mir": gen_names_module(rng)}
+            run, inp_name = f"run:g@{3 + rng.below(20)}", "generated names module"
+        elif src == "api":
+            seed = rng.below(100000)
+            s.append(f"api:{seed}")
+            printable, inp_name = seed % 2 == 0, f"api:{seed}"
+        elif src == "mir":
+            f = rng.choice(mirs)
+            t = open(f, errors="replace").read()
+            printable = re.search(r"^\s*(\w+:)?\s*expr\s", t, flags=re.M) is None
+            s.append("scan:" + f)
+            inp_name = os.path.relpath(f, REPO)
+        else:
+            f = rng.choice(cs)
+            s += ["c2m:" + f, "c2mfinish"]
+            inp_name = os.path.relpath(f, REPO)
+        s += ["movectx", "namecheck"]
+        if printable:
+            s.append("output")
+        if rng.chance(1, 2):
+            s.append("write")
+        iface = rng.choice(IFACES)
+        lv = rng.below(4) if src != "api" else rng.below(2)      # api modules may carry lref data (-O2: get_label_disp)
+        s += ["load", f"link:{iface}@{lv}", run]
+        if printable and rng.chance(1, 3):
+            s.append("output")
+        return {"kind": kind, "input": inp_name, "iface": iface, "level": lv, "files": files, "asan_build": rng.chance(1, 2),
+                "steps": s + tail_steps(rng, iface != "interp", False)}
     if kind == "tiered":
         # one context linked for the interpreter; single functions are then interpreted AND generated
         # (MIR_gen / lazy / lazy-bb interface set per function) in varying order.  Functions with lref data
@@ -899,12 +969,73 @@ def gen_lref_module(rng):
     return "\n".join(txt)
 
 
+def gen_jcall_module(rng):
+    """functions ending in JCALL (tail jump) / JRET in every argument shape: plain, variadic prototype (%al),
+    small structs by value (blk, blk1..blk4), floating point, more arguments than registers, none"""
+    protos = ["pv:   proto i64:a, ...", "ps1:  proto blk1:16(s)", "ps0:  proto blk:24(s)", "ps2:  proto blk2:16(s)",
+              "ps3:  proto blk3:16(s)", "ps4:  proto blk4:16(s)", "pi:   proto i64:a, i64:b", "pd:   proto d:a, f:b, i64:c",
+              "pm:   proto i64:a, i64:b, i64:c, i64:d, i64:e, i64:f, i64:g, i64:h", "pn:   proto", "pr:   proto i64, i64:a"]
+    shapes = [
+        lambda n: [f"{n}:  func", "      jcall pv, labs, " + ", ".join(str(rng.below(99)) for _ in range(1 + rng.below(7))), "      endfunc"],
+        lambda n: [f"{n}:  func i64:a", "      jcall ps1, labs, blk1:16(a)", "      endfunc"],
+        lambda n: [f"{n}:  func i64:a", "      jcall ps0, labs, blk:24(a)", "      endfunc"],
+        lambda n: [f"{n}:  func i64:a", "      jcall ps2, labs, blk2:16(a)", "      endfunc"],
+        lambda n: [f"{n}:  func i64:a", "      jcall ps3, labs, blk3:16(a)", "      endfunc"],
+        lambda n: [f"{n}:  func i64:a", "      jcall ps4, labs, blk4:16(a)", "      endfunc"],
+        lambda n: [f"{n}:  func i64:a", f"      jcall pi, labs, a, {rng.below(1000)}", "      endfunc"],
+        lambda n: [f"{n}:  func i64:a", "      local d:x, f:y", "      dmov x, 1.5", "      fmov y, 2.5f", "      jcall pd, labs, x, y, a", "      endfunc"],
+        lambda n: [f"{n}:  func i64:a", "      jcall pm, labs, a, 1, 2, 3, 4, 5, 6, a", "      endfunc"],
+        lambda n: [f"{n}:  func", "      jcall pn, labs", "      endfunc"],
+        lambda n: [f"{n}:  func i64:a", "      local i64:t", "      add t, a, 1", "      jret t", "      endfunc"],
+        lambda n: [f"{n}:  func i64, i64:a", "      local i64:r", "      call pr, labs, r, a", "      ret r", "      endfunc"],
+    ]
+    order = list(range(len(shapes)))
+    for i in range(len(order) - 1, 0, -1):
+        j = rng.below(i + 1)
+        order[i], order[j] = order[j], order[i]
+    keep = order[:4 + rng.below(len(order) - 3)]
+    if 0 not in keep:
+        keep.append(0)                 # the variadic jcall is always there
+    if not any(k in keep for k in (1, 3, 4, 5)):
+        keep.append(1)                 # and a struct-by-value one
+    body = []
+    for i, k in enumerate(keep):
+        body += shapes[k](f"j{i}")
+    return "\n".join(["mj:   module"] + protos + ["      import labs"] + body + ["      endmodule", ""])
+
+
+def gen_names_module(rng):
+    """every name-carrying construct: module, exports/imports/forwards, protos with argument names, string /
+    integer / bss / ref / lref data, locals, a hard-register-bound global variable, string operands"""
+    sfx = "".join(rng.choice("abcdefghk") for _ in range(3 + rng.below(5)))
+    hreg = rng.choice(["r12", "r13", "r14", "rbx"])
+    L = [f"mn{sfx}:   module", f"      export f{sfx}, g", "      import printf, labs", f"      forward h{sfx}",
+         f"pp{sfx}:   proto i32, p:fmt{sfx}, ...", f"pl{sfx}:   proto i64, i64:value{sfx}",
+         f"msg{sfx}:  string \"moved module {sfx} %ld\\n\"", f"tab{sfx}:  i64 1, 2, 3", f"buf{sfx}:  bss {8 * (1 + rng.below(20))}",
+         f"rf{sfx}:    ref tab{sfx}, 8"]
+    if rng.chance(3, 4):
+        L += [f"f{sfx}:    func i64, i64:a{sfx}", f"      local i64:x{sfx}, i64:y{sfx}", f"      global i64:acc{sfx}:{hreg}",
+              f"      add x{sfx}, a{sfx}, acc{sfx}", f"      mov acc{sfx}, x{sfx}", f"      call pl{sfx}, labs, y{sfx}, x{sfx}",
+              f"      ret y{sfx}", "      endfunc"]
+    else:
+        L += [f"f{sfx}:    func i64, i64:a{sfx}", f"      ret a{sfx}", "      endfunc"]
+    L += ["g:    func i64, i64:count", f"      local i64:i{sfx}, i64:s{sfx}", f"      mov s{sfx}, 0", f"      mov i{sfx}, 0", f"lp{sfx}:",
+          f"      bge done{sfx}, i{sfx}, count", f"      add s{sfx}, s{sfx}, i{sfx}", f"      add i{sfx}, i{sfx}, 1", f"      jmp lp{sfx}",
+          f"done{sfx}:", f"      call pp{sfx}, printf, i{sfx}, \"sum {sfx} %ld\\n\", s{sfx}", f"      ret s{sfx}", "      endfunc",
+          f"h{sfx}:    func i64", "      ret 7", "      endfunc"]
+    if rng.chance(1, 2):
+        L.append(f"lr{sfx}:   lref lp{sfx}, done{sfx}")
+    L += ["      endmodule", ""]
+    return "\n".join(L)
+
+
 def report_history(r, sig, what, detail):
     h = r["h"]
     finding(sig, what, {"stage": "tie", "theorem_or_correspondence": "ledger monitor over an API history",
                         "input": {"steps": [x.replace(REPO, "$REPO") for x in h["steps"]], **({"files": h["files"]} if h.get("files") else {})},
                         "impl": detail, "spec_verdict": what,
                         **({"assert_build": True} if h.get("assert_build") else {}),
+                        **({"asan_build": True} if h.get("asan_build") else {}),
                         "how_to_rerun": f"VERIF_REPO={REPO} ./check C17 --replay <this file>   (or: {steps_cmd(h['steps'])})"})
 
 
@@ -922,7 +1053,7 @@ if ck.replay:
         ck.finish()
     if isinstance(inp, dict) and "steps" in inp:
         h = {"kind": "replay", "steps": [x.replace("$REPO", REPO).replace("$VERIF", VERIF) for x in inp["steps"]],
-             "files": inp.get("files"), "assert_build": rp.get("assert_build")}
+             "files": inp.get("files"), "assert_build": rp.get("assert_build"), "asan_build": rp.get("asan_build")}
         r = run_history(h)
         ck.log(f"replay: status={r['status']} stats={r['stats']}")
         for sig, what, det in r["viol"]:
@@ -1045,6 +1176,19 @@ if EXE is not None and os.path.exists(DRV):
     for i in range(12 if QUICK else 80):
         hs.append(gen_history(ck.rng, mirs, cs, "tiered"))
         hs[-1]["assert_build"] = i % 2 == 1
+    for i in range(8 if QUICK else 60):
+        hs.append(gen_history(ck.rng, mirs, cs, "jcallmod"))
+        hs[-1]["steps"] = [x if not (x.startswith("link:") or x.startswith("genall:")) else x.split("@")[0].split(":")[0] + ":" + (x.split(":")[1].split("@")[0] + "@" if x.startswith("link:") else "") + str(i % 4) for x in hs[-1]["steps"]]
+        hs[-1]["level"] = i % 4
+    for i in range(10 if QUICK else 80):
+        hs.append(gen_history(ck.rng, mirs, cs, "movectx" ))
+        hs[-1]["asan_build"] = i % 2 == 1
+        if i < 4:                       # the generated names module always, under both flavours
+            h2 = gen_history(ck.rng, mirs, cs, "movectx")
+            while h2["input"] != "generated names module":
+                h2 = gen_history(ck.rng, mirs, cs, "movectx")
+            h2["asan_build"] = i % 2 == 1
+            hs[-1] = h2
     while len(hs) < n_hist:
         hs.append(gen_history(ck.rng, mirs, cs))
     results = run_histories(hh + hs)
